@@ -199,9 +199,16 @@ func phaseRendezvous(out *c10Out, rng *hx.Rng, runs int) {
 		nM := 2 + rng.Intn(4)
 		st := newRvStream(30 * time.Millisecond)
 		e := net.NewEndPoint(st)
+		big := r%5 == 4 // frames far beyond any buffer size; not replayed on the model
+		if big {
+			nS, nM = 2, 2
+		}
 		lists := make([][]net.Message, nS)
 		for s := 0; s < nS; s++ {
 			for _, sm := range genSizes(rng, nM, true) {
+				if big {
+					sm.size = rng.Pick(66000, 70000, 131073, 200000)
+				}
 				lists[s] = append(lists[s], c10Message(s, sm.seq, sm.size, sm.typ))
 			}
 		}
@@ -230,6 +237,9 @@ func phaseRendezvous(out *c10Out, rng *hx.Rng, runs int) {
 		calls := append([][]byte(nil), st.calls...)
 		st.mu.Unlock()
 		desc := fmt.Sprintf("rendezvous stream: %d senders x %d messages", nS, nM)
+		if big {
+			desc += fmt.Sprintf(" of %d..%d payload bytes", 66000, 200000)
+		}
 		if sendErr != nil {
 			out.Fails = append(out.Fails, fmt.Sprintf("%s: Send failed: %v", desc, sendErr))
 		}
@@ -274,7 +284,7 @@ func phaseRendezvous(out *c10Out, rng *hx.Rng, runs int) {
 		}
 		out.Dist["transport:rendezvous"]++
 		out.Counts = append(out.Counts, c10Count{fmt.Sprintf("rv|%v|%v", order, recv), switches(order) >= nS})
-		if ok {
+		if ok && !big {
 			out.SCases = append(out.SCases, [2]string{scaseTerm(lists, order, recv, calls), desc + fmt.Sprintf(" order=%v", order)})
 		}
 	}
